@@ -846,7 +846,21 @@ pub fn run(ctx: &RunCtx, flavor: Flavor) -> Report {
                 }
                 (t, "mutated")
             }
-            4 => (vec![], "empty"),
+            4 => {
+                if r.chance(1, 2) {
+                    (vec![], "empty")
+                } else {
+                    // an attacker who knows the algorithm (CRC32C(ip || secret)) guesses weak secrets
+                    let mut buf = clients[ci].addr.ip().octets().to_vec();
+                    match r.below(4) {
+                        0 => buf.extend_from_slice(&[0u8; 20]),
+                        1 => buf.extend_from_slice(&[0xffu8; 20]),
+                        2 => {}
+                        _ => buf.extend_from_slice(&clients[ci].addr.ip().octets().repeat(5)),
+                    }
+                    (krpc::crc32c(&buf).to_be_bytes().to_vec(), "guessed-weak-secret")
+                }
+            }
             5 if flavor == Flavor::C15 => {
                 let t = if own.is_empty() { vec![] } else { own[r.usize(0, own.len() - 1)].0.clone() };
                 (t, "random-own")
